@@ -58,6 +58,22 @@ class CacheFn:
             return "call:collections.OrderedDict.get" in oo
         return False
 
+    def is_direct_entry(self, e: ast.Name) -> bool:
+        """The name is bound only by the lookup itself (match capture / assignment / walrus of `_cached.get(key)`); names
+        that merge the entry with other values (e.g. the result of an inlined lookup helper: entry or None) are left to
+        the scenario's reaching-definition evaluation."""
+        owner = self.d.owner(e.id)
+        if owner is None:
+            return False
+        defs = self.d.defs(owner, e.id)
+        if not defs:
+            return False
+        for kind, v in defs:
+            v = unwrap(v)
+            if kind != "value" or not (isinstance(v, ast.Call) and self.an.callee(self.fi, v) == "collections.OrderedDict.get" and dotted(v.func.value) == "self._cached"):  # type: ignore[union-attr]
+                return False
+        return True
+
     def entry_field(self, e: ast.AST, _depth: int = 0) -> int | None:
         """0 for entry[0]/entry.value, 1 for entry[1]/entry.expire."""
         e = unwrap(e)
@@ -65,6 +81,13 @@ class CacheFn:
             return e.slice.value if e.slice.value in (0, 1) else None
         if isinstance(e, ast.Attribute) and self.is_entry(e.value):
             return {"value": 0, "expire": 1}.get(e.attr)
+        if isinstance(e, ast.Name):
+            # `value, expire = entry`
+            for st in self.fi.own_nodes():
+                if isinstance(st, ast.Assign) and len(st.targets) == 1 and isinstance(st.targets[0], (ast.Tuple, ast.List)) and len(st.targets[0].elts) == 2 and isinstance(unwrap(st.value), ast.Name) and self.is_entry(unwrap(st.value)):
+                    for idx, t in enumerate(st.targets[0].elts):
+                        if is_name(t, e.id) and len([1 for _k, _n in self.d.defs(self.fi, e.id)]) == 1:
+                            return idx
         if isinstance(e, ast.Name) and not self.is_entry(e):
             sv = self.d.single_value(e.id)
             if sv is not None:
@@ -78,13 +101,22 @@ class CacheFn:
                     return next(iter(fields))
         return None
 
-    def returns_entry_value(self, r: Node) -> bool:
+    def returns_entry_value(self, r: Node, sc=None) -> bool:
+        """The return hands out the cached entry's value (await shield(<it>) for the async forms).  With a scenario,
+        a local is resolved to the definitions that reach the return in that scenario."""
         v = unwrap(r.ast.value)  # type: ignore[union-attr]
         if isinstance(v, ast.Await):
             v = unwrap(v.value)
             if isinstance(v, ast.Call) and self.an.callee(self.fi, v) == "asyncio.shield" and v.args:
                 v = v.args[0]
-        return self.entry_field(v) == 0 if v is not None else False
+        if v is None:
+            return False
+        if self.entry_field(v) == 0:
+            return True
+        if sc is not None and isinstance(v, ast.Name):
+            vals = sc.reaching_values(r, v.id)
+            return bool(vals) and all(self.entry_field(x) == 0 for x in vals)
+        return False
 
     def env(self, *, present: bool, expire: object = None, now: float = 50.0, size: int | None = None, limit: int = 3):
         """Scenario over the cache state. expire: None (never) or a number compared with `now`."""
@@ -100,12 +132,12 @@ class CacheFn:
                     return size
             if dotted(e) == "self._limit" and size is not None:
                 return limit
-            fld = self.entry_field(e) if isinstance(e, (ast.Subscript, ast.Attribute)) else None
+            fld = self.entry_field(e) if isinstance(e, (ast.Subscript, ast.Attribute)) or (isinstance(e, ast.Name) and not self.is_direct_entry(e) and len(self.d.defs(self.fi, e.id)) == 1) else None
             if fld == 1:
                 return expire
             if fld == 0 and present:
                 return _VALUE
-            if isinstance(e, ast.Name) and self.is_entry(e):
+            if isinstance(e, ast.Name) and self.is_direct_entry(e):
                 return _ENTRY if present else None
             return NOVALUE
 
@@ -238,6 +270,7 @@ def check(an: Analysis) -> None:
                 if isinstance(v, ast.Call) and an.callee(fi, v) == prog.cls("helpers.caching._CacheEntry").qualname:
                     val = v.args[0] if v.args else next((k.value for k in v.keywords if k.arg == "value"), None)
                     exp = v.args[1] if len(v.args) > 1 else next((k.value for k in v.keywords if k.arg == "expire"), None)
+                    exp = unwrap(d.inline(exp)) if exp is not None else None
                     if not (isinstance(exp, ast.Call) and dotted(exp.func) == "self._next_expire_time"):
                         ob2.fail(fi, st.ast, "the entry's expiry stamp is not self._next_expire_time()")
                 if val is None:
@@ -254,13 +287,14 @@ def check(an: Analysis) -> None:
         ob3.inst(fi, s.lookups[0].ast)
         hit_envs = {"present, never expires": s.env(present=True, expire=None), "present, expires later": s.env(present=True, expire=100.0, now=50.0)}
         for label, env in hit_envs.items():
-            sc = s.sc_from(env).skip
+            sco = s.sc_from(env)
+            sc = sco.skip
             reach = g.reachable([g.entry], skip_edge=sc)
             live = [r for r in s.returns if r.id in reach]
             if not live:
                 ob3.fail(fi, None, f"[{label}] no return reachable")
             for r in live:
-                if not s.returns_entry_value(r):
+                if not s.returns_entry_value(r, sco):
                     ob3.fail(fi, r.ast, f"[{label}] an unexpired cached entry is not what is returned")
             w = g.search([g.entry], lambda n: n in s.fcalls, skip_edge=sc)
             if w is not None:
@@ -274,10 +308,11 @@ def check(an: Analysis) -> None:
             w = g.search([g.entry], lambda n: n in s.dels or n in s.pops, skip_edge=sc)
             if w is not None:
                 ob3.fail(fi, w[-1].ast, f"[{label}] an unexpired entry is removed on a hit", CFG.show_path(w))
-        sc = s.sc(present=True, expire=100.0, now=200.0).skip
+        sco = s.sc(present=True, expire=100.0, now=200.0)
+        sc = sco.skip
         reach = g.reachable([g.entry], skip_edge=sc)
         for r in [r for r in s.returns if r.id in reach]:
-            if s.returns_entry_value(r):
+            if s.returns_entry_value(r, sco):
                 ob3.fail(fi, r.ast, "[present, expired] a value older than its expiration is returned")
         w = g.must_pass(lambda n: n in s.fcalls, exits=("exit-return",), skip_edge=both(sc, normal_only))
         if w is not None:
@@ -289,22 +324,30 @@ def check(an: Analysis) -> None:
             w = g.must_pass(lambda n: n in s.dels, exits=("exit-return",), skip_edge=both(sc, normal_only))
             if w is not None:
                 ob3.fail(fi, s.dels[0].ast, "[present, expired] the stale entry is not removed before the miss path", CFG.show_path(w))
-        sc = s.sc(present=False).skip
+        sco = s.sc(present=False)
+        sc = sco.skip
         w = g.must_pass(lambda n: n in s.fcalls, exits=("exit-return",), skip_edge=both(sc, normal_only))
         if w is not None:
             ob3.fail(fi, s.lookups[0].ast, "[absent] a path returns without calling the function", CFG.show_path(w))
         reach = g.reachable([g.entry], skip_edge=sc)
         for r in [r for r in s.returns if r.id in reach]:
-            if s.returns_entry_value(r):
+            if s.returns_entry_value(r, sco):
                 ob3.fail(fi, r.ast, "[absent] returns an entry value although nothing is cached")
         # what a miss hands back: the function's own result (sync) / the awaited shielded task (async)
         miss_sc = s.sc(present=False)
-        for r in [r for r in s.returns if r.id in miss_sc.reach and not s.returns_entry_value(r)]:
+        for r in [r for r in s.returns if r.id in miss_sc.reach and not s.returns_entry_value(r, miss_sc)]:
             v = unwrap(r.ast.value)  # type: ignore[union-attr]
+
+            def origins_here(x: ast.AST, r=r) -> frozenset[str]:
+                # a local is resolved to the definitions reaching this return in the miss scenario
+                if isinstance(x, ast.Name) and (vals := miss_sc.reaching_values(r, x.id)):
+                    return frozenset().union(*[d.origins(v_) for v_ in vals])
+                return d.origins(x)
+
             if s.is_async:
-                ok = isinstance(v, ast.Await) and isinstance(unwrap(v.value), ast.Call) and an.callee(fi, unwrap(v.value)) == "asyncio.shield" and "call:asyncio.AbstractEventLoop.create_task" in d.origins(unwrap(v.value).args[0])
+                ok = isinstance(v, ast.Await) and isinstance(unwrap(v.value), ast.Call) and an.callee(fi, unwrap(v.value)) == "asyncio.shield" and "call:asyncio.AbstractEventLoop.create_task" in origins_here(unwrap(unwrap(v.value).args[0]))
             else:
-                ok = v is not None and f"call:{fi.cls.qualname}._function" in d.origins(v)
+                ok = v is not None and f"call:{fi.cls.qualname}._function" in origins_here(v)
             if not ok:
                 ob2.fail(fi, r.ast, "on a miss the caller does not get the wrapped function's own result")
         # ---------------- C12.4 store + eviction
@@ -390,10 +433,21 @@ def check(an: Analysis) -> None:
                 if not has and not is_none:
                     ob.fail(nf, rets[0], "without expiration entries get an expiry stamp")
         ci = prog.cls(cname)
-        for attr, param in (("_limit", "limit"), ("_function", "function"), ("_next_expire_time", "next_expire_time")):
+        dinit = Deps(prog, init)
+        stamp_names = {nf.name for nf in stamps}
+        for attr, param in (("_limit", "limit"), ("_function", "function"), ("_next_expire_time", None)):
             vv = ci.attr_val.get(attr, [])
-            if not (len(vv) == 1 and is_name(vv[0], param)):
-                ob.fail(init, None, f"{cname.rsplit('.', 1)[1]}.{attr} does not hold `{param}`")
+            ok = len(vv) == 1
+            if ok and param is not None:
+                ok = is_name(vv[0], param)
+            elif ok:
+                v = vv[0]
+                for _hop in range(3):  # `self._next_expire_time = <closure>` possibly through the return value of an inlined factory
+                    if isinstance(v, ast.Name) and v.id not in stamp_names and (sv := dinit.single_value(v.id)) is not None:
+                        v = sv
+                ok = isinstance(v, ast.Name) and v.id in stamp_names
+            if not ok:
+                ob.fail(init, None, f"{cname.rsplit('.', 1)[1]}.{attr} does not hold " + (f"`{param}`" if param else "the expiry-stamp closure selected above"))
             else:
                 ob.inst(init, vv[0], attr)
     wrap = prog.fn("helpers.caching.cache._wrap")
